@@ -34,6 +34,12 @@ Proof.
   all: try (left; split; [lia | reflexivity]).
 Qed.
 
+Lemma py_index_outside n i : (0 <= n <= ssize_max)%Z -> in_ssize i = false -> py_index n i = Err EIndex.
+Proof.
+  intros Hn Hi. apply in_ssize_false in Hi. unfold ssize_min, ssize_max in *.
+  destruct (py_index_cases n i) as [[H E]|[[H E]|[H E]]]; try lia; auto.
+Qed.
+
 Lemma norm_common (n i : Z) :
   (0 <= n <= ssize_max)%Z -> in_ssize i = true ->
   (i1 <- (if (i <? 0)%Z then isize_add i n else Ok i) ;;
@@ -99,10 +105,11 @@ Section Elem.
 
   (* ---------- EncodedSequence ---------- *)
   Lemma enc_getitem_py (d : list T) i :
-    (enc_len d <= ssize_max)%Z -> in_ssize i = true ->
+    (enc_len d <= ssize_max)%Z ->
     enc_getitem d i = (j <- py_index (enc_len d) i ;; Ok (nth (Z.to_nat j) d dflt)).
   Proof.
-    intros Hn Hi. unfold enc_getitem, extract_isize. rewrite Hi. cbn [rbind].
+    intros Hn. unfold enc_getitem, extract_isize. destruct (in_ssize i) eqn:Hi; cbn [rbind].
+    2:{ rewrite py_index_outside; auto. unfold enc_len in *; lia. }
     rewrite enc_norm_spec by (unfold enc_len in *; lia || auto).
     destruct (py_index_cases (enc_len d) i) as [[H E]|[[H E]|[H E]]]; try (unfold enc_len; lia);
       rewrite E; cbn [rbind]; auto; apply vec_get_lt; unfold enc_len in *; lia.
@@ -110,10 +117,11 @@ Section Elem.
 
   (* ---------- matrices ---------- *)
   Lemma mat_getitem_py (t : table) i :
-    (mat_len t <= ssize_max)%Z -> in_ssize i = true ->
+    (mat_len t <= ssize_max)%Z ->
     mat_getitem t i = (j <- py_index (mat_len t) i ;; Ok (nth (Z.to_nat j) t [])).
   Proof.
-    intros Hn Hi. unfold mat_getitem, extract_isize. rewrite Hi. cbn [rbind].
+    intros Hn. unfold mat_getitem, extract_isize. destruct (in_ssize i) eqn:Hi; cbn [rbind].
+    2:{ rewrite py_index_outside; auto. unfold mat_len in *; lia. }
     rewrite mat_norm_spec by (unfold mat_len in *; lia || auto).
     destruct (py_index_cases (mat_len t) i) as [[H E]|[[H E]|[H E]]]; try (unfold mat_len; lia);
       rewrite E; cbn [rbind]; auto; apply mat_row_lt; unfold mat_len in *; lia.
@@ -161,10 +169,11 @@ Section Elem.
 
   Lemma scores_getitem_py (s : @py_scores T) C R pos i :
     sc_tab s = striped_table dflt C R pos -> sc_max s <= R * C ->
-    (Z.of_nat (sc_max s) <= ssize_max)%Z -> in_ssize i = true ->
+    (Z.of_nat (sc_max s) <= ssize_max)%Z ->
     scores_getitem s i = (j <- py_index (Z.of_nat (sc_max s)) i ;; Ok (nth (Z.to_nat j) pos dflt)).
   Proof.
-    intros Ht Hm Hn Hi. unfold scores_getitem, extract_isize. rewrite Hi. cbn [rbind].
+    intros Ht Hm Hn. unfold scores_getitem, extract_isize. destruct (in_ssize i) eqn:Hi; cbn [rbind].
+    2:{ rewrite py_index_outside; auto. lia. }
     rewrite sc_norm_spec by (lia || auto).
     destruct (py_index_cases (Z.of_nat (sc_max s)) i) as [[H E]|[[H E]|[H E]]]; try lia;
       rewrite E; cbn [rbind]; auto; rewrite Ht; apply scores_index_spec; lia.
@@ -555,40 +564,33 @@ Section IndexObs.
   Qed.
 
   Lemma enc_getitem_obs (d : list T) i :
-    (enc_len d <= ssize_max)%Z -> in_ssize i = true ->
+    (enc_len d <= ssize_max)%Z ->
     index_spec (enc_len d) (fun k => VElem (nth k d dflt)) i (out_of_res VElem (enc_getitem d i)).
   Proof.
-    intros Hn Hi. rewrite (enc_getitem_py dflt d i Hn Hi).
+    intros Hn. rewrite (enc_getitem_py dflt d i Hn).
     rewrite (out_of_res_bind VElem _ (fun k => nth k d dflt)).
     apply (py_index_obs (enc_len d) i (fun k => VElem (nth k d dflt))). unfold enc_len. lia.
   Qed.
 
   Lemma mat_getitem_obs (t : list (list T)) i :
-    (mat_len t <= ssize_max)%Z -> in_ssize i = true ->
+    (mat_len t <= ssize_max)%Z ->
     index_spec (mat_len t) (fun k => VRow (nth k t [])) i (out_of_res VRow (mat_getitem t i)).
   Proof.
-    intros Hn Hi. rewrite (mat_getitem_py t i Hn Hi).
+    intros Hn. rewrite (mat_getitem_py t i Hn).
     rewrite (out_of_res_bind VRow _ (fun k => nth k t [])).
     apply (py_index_obs (mat_len t) i (fun k => VRow (nth k t []))). unfold mat_len. lia.
   Qed.
 
   Lemma scores_getitem_obs (s : @py_scores T) C R pos i :
     sc_tab s = striped_table dflt C R pos -> sc_max s <= R * C ->
-    (Z.of_nat (sc_max s) <= ssize_max)%Z -> in_ssize i = true ->
+    (Z.of_nat (sc_max s) <= ssize_max)%Z ->
     index_spec (scores_len s) (fun k => VElem (nth k pos dflt)) i (out_of_res VElem (scores_getitem s i)).
   Proof.
-    intros Ht Hm Hn Hi. rewrite (scores_getitem_py dflt s C R pos i Ht Hm Hn Hi).
+    intros Ht Hm Hn. rewrite (scores_getitem_py dflt s C R pos i Ht Hm Hn).
     rewrite (out_of_res_bind VElem _ (fun k => nth k pos dflt)).
     apply (py_index_obs (scores_len s) i (fun k => VElem (nth k pos dflt))). unfold scores_len. lia.
   Qed.
 
-  (* outside the ssize_t range the argument extraction fails first *)
-  Lemma getitem_outside (d : list T) (t : list (list T)) (s : @py_scores T) i :
-    in_ssize i = false ->
-    enc_getitem d i = Err EOverflow /\ mat_getitem t i = Err EOverflow /\ scores_getitem s i = Err EOverflow.
-  Proof.
-    intros H. unfold enc_getitem, mat_getitem, scores_getitem, extract_isize. rewrite H. auto.
-  Qed.
 End IndexObs.
 
 (* ---------- the model's observation passes the checker ---------- *)
@@ -716,41 +718,39 @@ Section ModelPasses.
     exists i, j. repeat split; auto; lia.
   Qed.
 
-  Definition all_ssize (idxs : list Z) : Prop := forall i, In i idxs -> in_ssize i = true.
-
   (* --- indexing part, per class --- *)
-  Lemma check_index_enc (l : list T) idxs : (enc_len l <= ssize_max)%Z -> all_ssize idxs ->
+  Lemma check_index_enc (l : list T) idxs : (enc_len l <= ssize_max)%Z ->
     check_index dflt eqT (LSeq KEnc l) (OVal (enc_len l))
       (map (fun i => (i, out_of_res VElem (enc_getitem l i))) idxs) = true.
   Proof.
-    intros Hn Hs. unfold check_index. cbn [lkind has_index llen]. unfold enc_len. rewrite Z.eqb_refl. cbn [andb].
+    intros Hn. unfold check_index. cbn [lkind has_index llen]. unfold enc_len. rewrite Z.eqb_refl. cbn [andb].
     apply forallb_map_true. intros i Hi. cbn [fst snd lelem].
-    rewrite (enc_getitem_py dflt l i Hn (Hs i Hi)).
+    rewrite (enc_getitem_py dflt l i Hn).
     rewrite (out_of_res_bind VElem _ (fun k => nth k l dflt)).
     apply (index_check_py (enc_len l) i (fun k => VElem (nth k l dflt))).
   Qed.
 
-  Lemma check_index_rows k K (t : table) idxs : (mat_len t <= ssize_max)%Z -> all_ssize idxs ->
+  Lemma check_index_rows k K (t : table) idxs : (mat_len t <= ssize_max)%Z ->
     check_index dflt eqT (LRows k K t) (OVal (mat_len t))
       (map (fun i => (i, out_of_res VRow (mat_getitem t i))) idxs) = true.
   Proof.
-    intros Hn Hs. unfold check_index. cbn [lkind llen]. destruct (has_index k); auto.
+    intros Hn. unfold check_index. cbn [lkind llen]. destruct (has_index k); auto.
     unfold mat_len. rewrite Z.eqb_refl. cbn [andb].
     apply forallb_map_true. intros i Hi. cbn [fst snd lelem].
-    rewrite (mat_getitem_py t i Hn (Hs i Hi)).
+    rewrite (mat_getitem_py t i Hn).
     rewrite (out_of_res_bind VRow _ (fun k => nth k t [])).
     apply (index_check_py (mat_len t) i (fun k => VRow (nth k t []))).
   Qed.
 
   Lemma check_index_scores C (s : @py_scores T) R pos idxs :
     sc_tab s = striped_table dflt C R pos -> sc_max s <= R * C ->
-    (Z.of_nat (sc_max s) <= ssize_max)%Z -> all_ssize idxs ->
+    (Z.of_nat (sc_max s) <= ssize_max)%Z ->
     check_index dflt eqT (LStriped KScores R pos (sc_max s)) (OVal (scores_len s))
       (map (fun i => (i, out_of_res VElem (scores_getitem s i))) idxs) = true.
   Proof.
-    intros Ht Hm Hn Hs. unfold check_index. cbn [lkind has_index llen]. unfold scores_len. rewrite Z.eqb_refl. cbn [andb].
+    intros Ht Hm Hn. unfold check_index. cbn [lkind has_index llen]. unfold scores_len. rewrite Z.eqb_refl. cbn [andb].
     apply forallb_map_true. intros i Hi. cbn [fst snd lelem].
-    rewrite (scores_getitem_py dflt s C R pos i Ht Hm Hn (Hs i Hi)).
+    rewrite (scores_getitem_py dflt s C R pos i Ht Hm Hn).
     rewrite (out_of_res_bind VElem _ (fun k => nth k pos dflt)).
     apply (index_check_py (Z.of_nat (sc_max s)) i (fun k => VElem (nth k pos dflt))).
   Qed.
@@ -854,10 +854,10 @@ Section ModelPasses.
   (* every class except StripedScores: any well-formed logical object, any indices of
      the ssize_t range, any history of reconfigurations *)
   Lemma model_passes_lemma (o : @lobj T) idxs wraps L M :
-    lobj_wf o -> (llen o <= ssize_max)%Z -> all_ssize idxs -> lkind o <> KScores ->
+    lobj_wf o -> (llen o <= ssize_max)%Z -> lkind o <> KScores ->
     check_C18 dflt eqT o (model_obs dflt poison o idxs wraps L M) = true.
   Proof.
-    intros Hwf Hn Hs Hk. destruct o as [k l|k K t|k R pos maxi]; cbn [lobj_wf] in Hwf.
+    intros Hwf Hn Hk. destruct o as [k l|k K t|k R pos maxi]; cbn [lobj_wf] in Hwf.
     - destruct Hwf as [-> | ->]; unfold check_C18, model_obs; cbn [o_len o_get o_view].
       + rewrite check_index_enc, check_view_enc; auto.
       + rewrite check_view_dist. reflexivity.
@@ -878,24 +878,24 @@ Section ModelPasses.
     (Z.of_nat (sc_max s) <= ssize_max)%Z ->
     sc_shape s = (Z.of_nat LANES, Z.of_nat R) ->
     sc_strides s = (4%Z, (Z.of_nat (dense_stride 4 LANES) * 4)%Z) ->
-    all_ssize idxs -> maxi = sc_max s ->
+    maxi = sc_max s ->
     check_index dflt eqT (LStriped KScores R pos maxi) (OVal (scores_len s))
       (map (fun i => (i, out_of_res VElem (scores_getitem s i))) idxs) &&
     check_view dflt eqT (LStriped KScores R pos maxi)
       (model_view poison LANES (dense_stride 4 LANES) 4 (sc_tab s) (scores_getbuffer s)) = true.
   Proof.
-    intros Ht Hm Hn Hsh Hst Hs ->.
-    rewrite (check_index_scores LANES s R pos idxs Ht Hm Hn Hs).
+    intros Ht Hm Hn Hsh Hst ->.
+    rewrite (check_index_scores LANES s R pos idxs Ht Hm Hn).
     rewrite (check_view_scores R pos s Ht Hsh Hst). reflexivity.
   Qed.
 
   (* StripedScores: the object calculate() returns for a sequence of L symbols and a motif
      of M >= 1 rows, [pos] being the scores of all cells in position order *)
   Lemma model_passes_scores_lemma L M (pos : list T) idxs wraps :
-    1 <= M -> (Z.of_nat L <= ssize_max)%Z -> all_ssize idxs ->
+    1 <= M -> (Z.of_nat L <= ssize_max)%Z ->
     check_C18 dflt eqT (scores_lobj L M pos) (model_obs dflt poison (scores_lobj L M pos) idxs wraps L M) = true.
   Proof.
-    intros HM Hn Hs. unfold scores_lobj. destruct (L <? M) eqn:E.
+    intros HM Hn. unfold scores_lobj. destruct (L <? M) eqn:E.
     - unfold check_C18, model_obs. cbn [o_len o_get o_view].
       pose proof (scores_of_inv dflt LANES (dense_stride 4 LANES) (seq_rows L) L M [] HM (seq_rows_ge L)) as H.
       cbv zeta in H. rewrite E in H. cbn [orb] in H. destruct H as (Ht & Hm & Hmax & Hsh & Hst).
